@@ -1,4 +1,4 @@
-import AndaVerif.Proofs.TxVersions
+import AndaVerif.Proofs.TxHistory
 /-
 One Proposition per tuple; the journal's sequences along a history.
 -/
